@@ -47,7 +47,7 @@ def gen_chrom(rng, name, ids, broken=None):
         link(a, "+", b, "+")
         return segs, links, [a, b]
     so = 0
-    nsc = rng.randint(3, 7)
+    nsc = rng.randint(3, 7) if broken != "rearranged" else rng.randint(5, 7)
     prev, L = new(name, so, 0)
     so += L
     scaff = [prev]
@@ -109,6 +109,15 @@ def gen_chrom(rng, name, ids, broken=None):
         scaff.append(nxt)
     if rng.random() < 0.2:
         links.append((scaff[0], "+", scaff[0], "-", 0, []))   # self link
+    if broken == "rearranged":
+        # a transposition on the reference: two neighbouring articulation points exchange their reference intervals (offset and
+        # sequence), so the offsets of the scaffold nodes do not increase along the chain although its ends are in order; half
+        # of the time it is the LAST pair (found by the mechanical mutation sweep: a test loop one iteration short went unnoticed)
+        j = len(scaff) - 3 if rng.random() < 0.5 else rng.randint(1, len(scaff) - 3)
+        sa = next(x for x in segs if x[0] == scaff[j])
+        sb = next(x for x in segs if x[0] == scaff[j + 1])
+        sa[2], sb[2] = sb[2], sa[2]
+        sa[4], sb[4] = sb[4], sa[4]
     if broken == "tips":
         m = scaff[len(scaff) // 2]
         for _ in range(2):
@@ -247,7 +256,7 @@ def make_case(rng):
     ids = idgen(style)
     nchr = rng.randint(1, 3)
     chroms = ["chr%d" % (c + 1) for c in range(nchr)]
-    broken = {c: (rng.choice(["tips", "cycle3", "haptail", "ring", "pair"]) if rng.random() < 0.3 else None) for c in chroms}
+    broken = {c: (rng.choice(["tips", "cycle3", "haptail", "ring", "pair", "rearranged"]) if rng.random() < 0.3 else None) for c in chroms}
     allsegs, alllinks = [], []
     scaffs = {}
     for c in list(chroms):
